@@ -144,6 +144,76 @@ theorem resolveIndex_spec (n : Nat) (i : Int) (k : Nat) (h : resolveIndex n i = 
 
 end table
 
+/-! ### slices -/
+section slice
+theorem slice_pos_bound (lo hi c i : Int) (n : Int) (hlo : 0 ≤ lo) (hhi : hi ≤ n) (hc : 0 < c) (hi0 : 0 ≤ i)
+    (hi1 : i ≤ (hi - lo - 1) / c) : 0 ≤ lo + i * c ∧ lo + i * c < n := by
+  have h1 : i * c ≤ ((hi - lo - 1) / c) * c := Int.mul_le_mul_of_nonneg_right hi1 hc.le
+  have h2 : ((hi - lo - 1) / c) * c ≤ hi - lo - 1 := Int.ediv_mul_le _ hc.ne'
+  have h3 : 0 ≤ i * c := Int.mul_nonneg hi0 hc.le
+  constructor <;> omega
+
+theorem slice_neg_bound (lo hi c i : Int) (n : Int) (hlo : lo ≤ n - 1) (hhi : -1 ≤ hi) (hc : c < 0) (hi0 : 0 ≤ i)
+    (hi1 : i ≤ (lo - hi - 1) / (-c)) : 0 ≤ lo + i * c ∧ lo + i * c < n := by
+  have hc' : 0 < -c := by omega
+  have h1 : i * (-c) ≤ ((lo - hi - 1) / (-c)) * (-c) := Int.mul_le_mul_of_nonneg_right hi1 hc'.le
+  have h2 : ((lo - hi - 1) / (-c)) * (-c) ≤ lo - hi - 1 := Int.ediv_mul_le _ hc'.ne'
+  have h3 : 0 ≤ i * (-c) := Int.mul_nonneg hi0 hc'.le
+  have h4 : i * (-c) = -(i * c) := by rw [Int.mul_neg]
+  constructor <;> omega
+
+theorem sliceStartStop_pos (n : Nat) (a b : Option Int) (c : Int) (hc : 0 < c) :
+    0 ≤ (sliceStartStop n a b c).1 ∧ (sliceStartStop n a b c).2 ≤ n := by
+  unfold sliceStartStop
+  rw [if_pos hc]
+  constructor
+  · cases a with
+    | none => simp
+    | some s => simp only [Option.map_some, Option.getD_some, clampPos]; split <;> omega
+  · cases b with
+    | none => simp
+    | some s => simp only [Option.map_some, Option.getD_some, clampPos]; split <;> omega
+
+theorem sliceStartStop_neg (n : Nat) (a b : Option Int) (c : Int) (hc : ¬ 0 < c) :
+    (sliceStartStop n a b c).1 ≤ (n : Int) - 1 ∧ -1 ≤ (sliceStartStop n a b c).2 := by
+  unfold sliceStartStop
+  rw [if_neg hc]
+  constructor
+  · cases a with
+    | none => simp
+    | some s => simp only [Option.map_some, Option.getD_some, clampNeg]; split <;> omega
+  · cases b with
+    | none => simp
+    | some s => simp only [Option.map_some, Option.getD_some, clampNeg]; split <;> omega
+
+/-- a slice never reaches outside the table -/
+theorem sliceIndices_lt' (n : Nat) (a b : Option Int) (c : Int) (ks : List Nat)
+    (h : sliceIndices n a b c = .ok ks) : ∀ k ∈ ks, k < n := by
+  unfold sliceIndices at h
+  split at h
+  · cases h
+  · rename_i hc0
+    simp only [Except.ok.injEq] at h
+    subst h
+    intro k hk
+    simp only [List.mem_map, List.mem_range] at hk
+    obtain ⟨i, hi, rfl⟩ := hk
+    unfold sliceLen at hi
+    rcases lt_or_gt_of_ne hc0 with hc | hc
+    · have hb := sliceStartStop_neg n a b c (by omega)
+      rw [if_neg (by omega)] at hi
+      split at hi
+      · have := slice_neg_bound _ _ c i n hb.1 hb.2 hc (by omega) (by omega)
+        omega
+      · omega
+    · have hb := sliceStartStop_pos n a b c hc
+      rw [if_pos hc] at hi
+      split at hi
+      · have := slice_pos_bound _ _ c i n hb.1 hb.2 hc (by omega) (by omega)
+        omega
+      · omega
+end slice
+
 /-! ### the median row -/
 section median
 variable {α : Type} [LinearOrder α]
